@@ -51,8 +51,9 @@ def gen_cases(tier, seed):
                                       d=int(rng.integers(1, 3)), B=int(rng.integers(2, 5)), seed=seed * 10000 + k, cost=3.0))
         for g in GENS:
             for state in ("fresh", "mid", "end"):
-                k += 1
-                cases.append(dict(mode="gen", gen=g, state=state, seed=seed * 10000 + k, cost=1.0))
+                for x64 in (True, False):
+                    k += 1
+                    cases.append(dict(mode="gen", gen=g, state=state, seed=seed * 10000 + k, cost=1.0, x64=x64))
         for g in ("obs_eq", "param_user"):
             k += 1
             cases.append(dict(mode="two_loaders", gen=g, seed=seed * 10000 + k, cost=1.0))
@@ -312,12 +313,13 @@ def build_gen(name, seed, rng):
     if name in ("statio1", "statio2"):
         d = int(name[-1])
         return gens.make_generator(dict(kind="statio", key=seed % 1000, n=6, b=2, dim=d, min_pts=[-1.0, 0.0][:d],
-                                        max_pts=[1.0, 2.0][:d], nb=8 if d == 2 else 2, bb=2 if d == 2 else 1)), 3
+                                        max_pts=[1.0, 2.0][:d], nb=24 if d == 2 else 2, bb=[5, 2][(seed // 2) % 2] if d == 2 else 1)), 3
     if name in ("nonstatio1", "nonstatio2"):
         d = int(name[-1])
         return gens.make_generator(dict(kind="nonstatio", key=seed % 1000, n=6, b=2, dim=d, min_pts=[-1.0, 0.0][:d],
-                                        max_pts=[1.0, 2.0][:d], nb=8 if d == 2 else 2, bb=2 if d == 2 else 1,
-                                        nt=6, bt=2, tmin=0.0, tmax=1.0, cartesian=bool(seed % 2))), 3
+                                        max_pts=[1.0, 2.0][:d], nb=24 if d == 2 else 2,
+                                        bb=(2 if (seed // 2) % 2 else 5) if d == 2 else 1,
+                                        nt=6, bt=2, tmin=0.0, tmax=1.0, cartesian=bool((seed // 2) % 2 == 0 or seed % 2))), 3
     n = 6
     rows = np.arange(n, dtype=float) + rng.uniform(0, 0.5)
     if name in ("obs", "obs_eq"):
@@ -383,8 +385,8 @@ def run_gen(case, rec):
         g4, b4 = guard.call(g.get_batch)
     if not all(close(a, b, 1e-12, 1e-14) for a, b in zip(leaves_np(b1), leaves_np(b4))):
         rec.violation(sig + "/disable_jit-differs", "op-by-op get_batch differs from the default eager one")
-    rec.nontrivial((case["gen"], case["state"]))
-    rec.set_sample(gen=case["gen"], state=case["state"], batch_leaves=[x.reshape(-1)[:4] for x in leaves_np(b1)][:3])
+    rec.nontrivial((case["gen"], case["state"], case.get("x64", True)))
+    rec.set_sample(gen=case["gen"], state=case["state"], x64=case.get("x64", True), batch_leaves=[x.reshape(-1)[:4] for x in leaves_np(b1)][:3])
 
 
 def run_two_loaders(case, rec):
